@@ -286,6 +286,7 @@ pub fn op_strategy(pool_lens: Vec<usize>, pool_recs: Vec<usize>, base: usize) ->
         1 => (0..len.max(1), any::<u8>()).prop_map(|(pos, val)| Op::SetByte { pos, val }),
         2 => (0..=len).prop_map(|len| Op::Truncate { len }),
         2 => proptest::collection::vec(any::<u8>(), 1..40).prop_map(|bytes| Op::Append { bytes }),
+        1 => (0..TAILS.len(), 1usize..4).prop_map(|(i, k)| Op::Append { bytes: TAILS[i].repeat(k) }),
         4 => rec_edit,
         1 => (0..nr, prop_oneof![Just(0u32), Just(1), Just(2), Just(1 << 24), any::<u32>()]).prop_map(|(rec, val)| Op::SetFlag { rec, val }),
         2 => (0..nr, prop_oneof![Just(0u32), 0u32..80, Just(65536), Just(65537), Just(1 << 31), Just(u32::MAX)], any::<bool>()).prop_map(|(rec, val, resize)| Op::SetLen { rec, val, resize }),
@@ -299,6 +300,8 @@ pub fn mutant_strategy(pool: &Pool, max_ops: usize) -> BoxedStrategy<Mutant> {
     (0..lens.len()).prop_flat_map(move |base| (Just(base), proptest::collection::vec(op_strategy(lens.clone(), recs.clone(), base), 1..=max_ops))).prop_map(|(base, ops)| Mutant { base, ops }).boxed()
 }
 
+/// What tools and transports leave behind a file: line ends, NULs, blanks, end-of-text marks, a UTF-8 BOM.
+pub const TAILS: [&[u8]; 14] = [b"\n", b"\r\n", b"\r", b"\n\r", b"\0", b" ", b"\t", b"\x1a", b"\x04", b"\xef\xbb\xbf", b"\r\n\0", b"\n\0", b"=\n", b"\xff"];
 // ---------------------------------------------------------------- small-scope exhaustive spaces
 /// Every single-bit flip, every truncation, every one-byte extension, every sequence of <= maxseq of the file's own
 /// records, flag/length edits, and (for headers) every exchange of a header field with the other pool files.
@@ -307,6 +310,7 @@ pub fn sse_space(pool: &Pool, base: usize, maxseq: usize, others: &[usize]) -> V
     for pos in 0..f.bytes.len() * 8 { v.push(Mutant { base, ops: vec![Op::FlipBit { pos }] }); }
     for len in 0..f.bytes.len() { v.push(Mutant { base, ops: vec![Op::Truncate { len }] }); }
     for val in 0..=255u8 { v.push(Mutant { base, ops: vec![Op::Append { bytes: vec![val] }] }); }
+    for t in TAILS { for k in 2..=3usize { v.push(Mutant { base, ops: vec![Op::Append { bytes: t.repeat(k) }] }); } if t.len() > 1 { v.push(Mutant { base, ops: vec![Op::Append { bytes: t.to_vec() }] }); } }
     let n = f.recs.len();
     if n > 0 {
         let mut seqs: Vec<Vec<(usize, usize)>> = vec![vec![]];
